@@ -232,8 +232,13 @@ class Facts:
 
     def text(self, rel, sp):
         """source text of a span [l0,c0,l1,c1] (columns are in characters)"""
+        extra = getattr(sp, "extra", None)
+        if extra:
+            # a call with the helper it names put in its place: the call, then the helper's statements
+            plain = list(getattr(sp, "orig", None) or sp)
+            return self.text(rel, plain) + " /*=*/ " + " ".join(self.text(rel, list(x)) for x in extra)
         lines = self.source_lines(rel)
-        l0, c0, l1, c1 = sp
+        l0, c0, l1, c1 = getattr(sp, "orig", None) or sp     # an inlined helper's node: its text is where the helper is written
         if l0 == l1:
             out = lines[l0 - 1][c0:c1]
         else:
